@@ -44,6 +44,17 @@ func (s *Store) Init(cleanStart bool) error {
 		if err != nil {
 			return err
 		}
+		return nil
+	}
+	// the session is resumed (possibly by a restarted broker): reload the packet ids awaiting PUBREL
+	c := s.pool.Get()
+	defer c.Close()
+	ids, err := redis.Ints(c.Do("hkeys", getKey(s.clientID)))
+	if err != nil {
+		return err
+	}
+	for _, id := range ids {
+		s.unackpublish[packets.PacketID(id)] = struct{}{}
 	}
 	return nil
 }
